@@ -140,3 +140,20 @@ B("macro-hex-B-after-prefix", ["C19"],
 B("bytes-fast-path-no-range-check", ["C08"],
   [("src/bytes.rs", "            if Self::LIMBS > 0 && limbs[Self::LIMBS - 1] > Self::MASK {\n                return None;\n            }\n            return Some(Self::from_limbs(limbs));",
     "            return Some(Self::from_limbs(limbs));")], "from_limbs")
+
+# ---- R-CASTFIT
+B("castfit-signed-capacity-off-by-one", ["C07"],
+  [("src/from.rs", "if SIGNED { <$int>::BITS - 1 } else { <$int>::BITS }", "if SIGNED { <$int>::BITS } else { <$int>::BITS }")],
+  "cast->i8")
+B("castfit-i128-bound-128", ["C07"],
+  [("src/from.rs", "        if value.bit_len() > 127 {", "        if value.bit_len() > 128 {")], "->i128")
+B("castfit-roundtrip-signed", ["C07"],
+  [("src/from.rs", "                if value.bit_len() > CAPACITY {\n                    return Err(Self::Error::Overflow(\n                        BITS,\n                        value.limbs[0] as Self,\n                        Self::MAX,\n                    ));\n                }\n                Ok(value.as_limbs()[0] as Self)",
+    "                let low = value.limbs[0];\n                let result = low as Self;\n                if result as u64 != low || value.limbs[1..].iter().any(|&limb| limb != 0) {\n                    return Err(Self::Error::Overflow(BITS, result, Self::MAX));\n                }\n                Ok(result)")],
+  "cast->i64")
+N("castfit-leading_zeros-form", ["C07"],
+  [("src/from.rs", "                if value.bit_len() > CAPACITY {\n                    return Err(Self::Error::Overflow(",
+    "                if BITS > CAPACITY && value.leading_zeros() < BITS - CAPACITY {\n                    return Err(Self::Error::Overflow(")])
+N("castfit-direct-limb-compare", ["C07"],
+  [("src/from.rs", "                if value.bit_len() > CAPACITY {\n                    return Err(Self::Error::Overflow(",
+    "                if value.limbs[0] > (Self::MAX as u64) || value.bit_len() > 64 {\n                    return Err(Self::Error::Overflow(")])
